@@ -97,6 +97,10 @@ def judge(rec, name, src, cfg, feats=()):
     if kid:
         rec.known_finding(kid)
         return
+    why = observe.interpreter_defect_312(o, src)
+    if why:
+        rec.inconc(why)
+        return
     rec.violation(o.status, case, o.detail)
 
 
